@@ -21,6 +21,7 @@ RULE = ("random host programs whose rotation numerators are Templates (1-3 names
         "per segment (the all-direct assignment is twin B), vanilla pipeline and NV "
         "pipeline (NVSubroutineTranspiler + NV-flavoured controller)."
         ' An identical-rounds family compiles the same templated body 2-4 times on one connection with different template values per round (pre / direct / pre-late per round). '
+        " Segment mode +cb: the segment is sent with a completion callback in which the host queues the operations of the next segment, on the flush route and on the compile/commit route. "
         "Non-trivial = at least one segment was "
         "pre-compiled and contained a templated rotation that was executed; distinct = distinct (program, values, modes, hardware).")
 ASSUMPTIONS = ["R-HOST gives the expected effect of the program with the concrete template values (transitively: precompiled == direct)",
